@@ -59,9 +59,10 @@ InStore(i, e) == \E x \in 1..Len(e.store) : (e.store[x].k = sm.frames[i].key /\ 
 StoreUndone(lim, e) == \E i \in 1..lim : (LastProbe(i, lim) /\ ~InStore(i, e))
 (* what goes wrong after an oversized frame also breaks C13 ("the following pipelined requests are served normally") *)
 OverBefore(fr, fi) == IF \E j \in 1..(fi - 1) : j <= Len(fr) /\ Class(fr[j], sm.limit) = "oversize" THEN {"C13"} ELSE {}
-RECURSIVE Walk(_, _, _, _, _, _)
-Walk(fr, rs, fi, ri, how, cut) ==
-    LET total == StartOf(fr, Len(fr) + 1)
+RECURSIVE Walk(_, _, _, _, _, _, _)
+(* `at` is the stream offset of frame fi (carried along: no recomputation per frame) *)
+Walk(fr, rs, fi, ri, how, cut, at) ==
+    LET total == at
         closedNow == ri > Len(rs) /\ how \in {"eof", "reset"}
     IN
     IF fi > Len(fr) THEN
@@ -76,32 +77,33 @@ Walk(fr, rs, fi, ri, how, cut) ==
         oc  == OpClass(f.op)
         have == ri <= Len(rs) /\ Answers(rs[ri], f)
         closedHere == closedNow
-        hdrIn == StartOf(fr, fi) + HeaderLen <= cut
-        allIn == StartOf(fr, fi + 1) <= cut
+        hdrIn == at + HeaderLen <= cut
+        nxt == at + HeaderLen + f.sent
+        allIn == nxt <= cut
     IN
     IF ~allIn /\ ~(hdrIn /\ cls = "oversize") THEN
         \* the client stopped inside this frame: it is not executed, nothing more is answered (C18)
         IF closedHere THEN ResAt("cut.closed", fi - 1)
         ELSE Res({"C18", "C09"}, "incomplete.frame.answered")
     ELSE IF cls = "oversize" THEN
-        IF have /\ rs[ri].st = 3 THEN Walk(fr, rs, fi + 1, ri + 1, how, cut)
+        IF have /\ rs[ri].st = 3 THEN Walk(fr, rs, fi + 1, ri + 1, how, cut, nxt)
         ELSE Res({"C13"}, "oversize.bad")
     ELSE IF have /\ rs[ri].st = 3 THEN Res({"C13"}, "toolarge.within.limit")
     ELSE IF cls = "canonical" /\ oc = "quit" THEN
         IF f.op = 7 THEN (IF have /\ rs[ri].st = 0 /\ ri = Len(rs) /\ how \in {"eof", "reset"} THEN ResAt("quit", fi) ELSE Res({"C12"}, "quit.bad"))
         ELSE (IF closedHere THEN ResAt("quitq", fi) ELSE Res({"C12"}, "quitq.bad"))
     ELSE IF cls = "canonical" THEN
-        IF ~IsQuiet(f.op) THEN (IF have THEN Walk(fr, rs, fi + 1, ri + 1, how, cut) ELSE Res({"C12", "C09", "C18"} \cup OverBefore(fr, fi), "loud.unanswered"))
+        IF ~IsQuiet(f.op) THEN (IF have THEN Walk(fr, rs, fi + 1, ri + 1, how, cut, nxt) ELSE Res({"C12", "C09", "C18"} \cup OverBefore(fr, fi), "loud.unanswered"))
         ELSE IF have THEN
-            (IF rs[ri].st # 0 \/ oc = "get" THEN Walk(fr, rs, fi + 1, ri + 1, how, cut) ELSE Res({"C12", "C19"}, "quiet.success.answered"))
-        ELSE Walk(fr, rs, fi + 1, ri, how, cut)
+            (IF rs[ri].st # 0 \/ oc = "get" THEN Walk(fr, rs, fi + 1, ri + 1, how, cut, nxt) ELSE Res({"C12", "C19"}, "quiet.success.answered"))
+        ELSE Walk(fr, rs, fi + 1, ri, how, cut, nxt)
     ELSE IF cls = "unimpl" THEN
-        IF have THEN Walk(fr, rs, fi + 1, ri + 1, how, cut)
-        ELSE IF IsQuiet(f.op) THEN Walk(fr, rs, fi + 1, ri, how, cut)
+        IF have THEN Walk(fr, rs, fi + 1, ri + 1, how, cut, nxt)
+        ELSE IF IsQuiet(f.op) THEN Walk(fr, rs, fi + 1, ri, how, cut, nxt)
         ELSE Res({"C12"} \cup OverBefore(fr, fi), "unimpl.unanswered")
     ELSE \* odd or invalid
         IF closedHere THEN ResAt("closed." \o cls, fi - 1)
-        ELSE IF have /\ rs[ri].st # 0 THEN Walk(fr, rs, fi + 1, ri + 1, how, cut)
+        ELSE IF have /\ rs[ri].st # 0 THEN Walk(fr, rs, fi + 1, ri + 1, how, cut, nxt)
         ELSE IF cls = "invalid" THEN Res({"C10", "C09", "C18"}, "invalid.not.refused")
         ELSE Res({"C09", "C18"}, "odd.not.refused")
 
@@ -111,7 +113,7 @@ Judge(e) ==
     ELSE IF \E i \in 1..Len(e.r) : ~RespOK(e.r[i]) THEN Res({"C11"} \cup (IF "slow" \in DOMAIN e THEN {"C12"} ELSE {}), "malformed.response")
     ELSE IF e.how = "timeout" THEN Res({"C12", "C09", "C10"}, "no.answer.in.time")
     ELSE IF e.maxcap > sm.limit + Slack THEN Res({"C10"}, "buffer.bloat")
-    ELSE LET w == Walk(sm.frames, e.r, 1, 1, e.how, sm.cut) IN
+    ELSE LET w == Walk(sm.frames, e.r, 1, 1, e.how, sm.cut, 0) IN
          \* nothing received after the point at which the connection ended is executed: the driver's probe
          \* stores write the value "v<opaque>", so a store entry names the frame that wrote it
          IF w.tags = {} /\ \E i \in (w.lim + 1)..Len(sm.frames) : \E j \in 1..Len(e.store) : e.store[j].v = ProbeVal(sm.frames[i])
